@@ -36,6 +36,7 @@ def dispatch (line : String) : String :=
     | some a, some b, some c, some d => if AL.SrcPos.isBefore ⟨a, b⟩ ⟨c, d⟩ then "1" else "0"
     | _, _, _, _ => "bad-op"
   | "calls" :: args => Driver.CallsD.handle args
+  | "calltype" :: args => Driver.CallsD.handleCallType args
   | _ => "bad-op"
 
 partial def loop (hin : IO.FS.Stream) (hout : IO.FS.Stream) : IO Unit := do
